@@ -338,7 +338,7 @@ def oracle_seq(case, obs):
         k = op['op']
         what = f'op {n} ({k})'
         sent = svcref.norm_hash(ref.latest_hash)
-        good_update = (k == 'poll' and op.get('rt', 1) == 1 and all(tp.get('conv', True) for tp in op['tps']))
+        good_update = (k == 'poll' and op.get('rt', 1) == 1)
         inert = (k == 'pollFail') or (k == 'poll' and not good_update)
         if k in ('poll', 'pollFail'):
             if t.get('req_hash') != sent:
@@ -456,8 +456,7 @@ def _reordered(case):
 def _fail_after_good(case):
     ref = svcref.Reference()
     for o in case['ops']:
-        bad = o['op'] == 'pollFail' or (o['op'] == 'poll' and (o.get('rt', 1) == 0 or not all(
-            tp.get('conv', True) for tp in o['tps'])))
+        bad = o['op'] == 'pollFail' or (o['op'] == 'poll' and o.get('rt', 1) != 1)
         if bad and ref.latest_hash is not None:
             return True
         ref.apply(o)
